@@ -28,8 +28,9 @@ import (
 
 // ---- input ---------------------------------------------------------------------------------------------------------
 
-// times are seconds since 2023-01-01T00:00:00Z
+// times are MICROSECONDS since 2023-01-01T00:00:00Z (the store's precision); zone offsets are whole seconds
 const baseEpoch = int64(1672531200)
+const sec = int64(1000000)
 
 type Posting struct {
 	Src    string `json:"src"`
@@ -93,7 +94,18 @@ func genMeta(g *vx.Rng, max int) map[string]string {
 }
 
 func genHistory(g *vx.Rng, maxLogs int) History {
-	st := genState{nextLog: map[string]int64{}, nextTx: map[string]int64{}, txs: map[string][]int64{}, now: int64(10 + g.Intn(20))}
+	st := genState{nextLog: map[string]int64{}, nextTx: map[string]int64{}, txs: map[string][]int64{}, now: int64(10+g.Intn(20)) * sec}
+	// sub-second style: whole seconds only / a few fixed fractions (several dates inside one second) / arbitrary microseconds
+	fracStyle := g.Intn(3)
+	frac := func() int64 {
+		switch fracStyle {
+		case 0:
+			return 0
+		case 1:
+			return []int64{0, 1, 250000, 500000, 900000, 999999}[g.Intn(6)]
+		}
+		return int64(g.Intn(1000000))
+	}
 	n := 1 + g.Intn(maxLogs)
 	// per-history style: most histories stay outside the known-finding classes so that the oracle is decisive
 	selfTransfers := g.Chance(1, 6)
@@ -104,7 +116,20 @@ func genHistory(g *vx.Rng, maxLogs int) History {
 	for i := 0; i < n; i++ {
 		l := uLedgers[g.Intn(nLedgers)]
 		if g.Chance(2, 3) {
-			st.now += int64(g.Intn(4)) // equal dates happen
+			// equal dates happen; so do several dates within one second
+			switch g.Intn(3) {
+			case 0:
+				st.now += int64(g.Intn(4)) * sec
+			case 1:
+				st.now = st.now - st.now%sec + int64(g.Intn(3))*sec + frac()
+				if len(h.Logs) > 0 && st.now < h.Logs[len(h.Logs)-1].Date {
+					st.now = h.Logs[len(h.Logs)-1].Date
+				}
+			default:
+				if fracStyle != 0 {
+					st.now += int64(g.Intn(700000))
+				}
+			}
 		}
 		e := LogIn{Ledger: l, ID: st.nextLog[l], Date: st.now}
 		st.nextLog[l]++
@@ -118,9 +143,12 @@ func genHistory(g *vx.Rng, maxLogs int) History {
 				t.ID--
 			}
 			if backdating && g.Chance(1, 2) {
-				t.TS = st.now - 8 + int64(g.Intn(17))
-				if t.TS < 1 {
-					t.TS = 1
+				t.TS = st.now - 8*sec + int64(g.Intn(17))*sec
+				if fracStyle != 0 {
+					t.TS = t.TS - t.TS%sec + frac()
+				}
+				if t.TS < sec {
+					t.TS = sec
 				}
 			}
 			if zones && g.Chance(1, 2) {
@@ -209,14 +237,23 @@ func genHistory(g *vx.Rng, maxLogs int) History {
 	for _, e := range h.Logs {
 		ts = append(ts, e.Date)
 		if e.Tx != nil {
-			ts = append(ts, e.Tx.TS-e.Tx.Off)
+			ts = append(ts, e.Tx.TS-e.Tx.Off*sec)
 		}
 	}
+	// exactly a date of the history, one microsecond / a fraction of a second / a second before or after it
 	np := 1 + g.Intn(2)
 	for i := 0; i < np; i++ {
 		t := ts[g.Intn(len(ts))]
-		if g.Chance(1, 2) {
+		switch g.Intn(6) {
+		case 0, 1:
+		case 2:
 			t += int64(g.Intn(3)) - 1
+		case 3:
+			t += []int64{-400000, 400000, -999999, 999999}[g.Intn(4)]
+		case 4:
+			t = t - t%sec + []int64{0, 900000, 999999}[g.Intn(3)]
+		default:
+			t += (int64(g.Intn(3)) - 1) * sec
 		}
 		h.Pits = append(h.Pits, t)
 	}
